@@ -122,7 +122,7 @@ class CWMH(ProposalBasedSampler):
         acc[:, 0] = np.ones(self.dim)
 
         # initial adaptation params 
-        Na = int(0.1*N)                                        # iterations to adapt
+        Na = max(int(0.1*N), 1)                                      # iterations to adapt
         hat_acc = np.empty((self.dim, int(np.floor(Ns/Na))))     # average acceptance rate of the chains
         lambd = np.empty((self.dim, int(np.floor(Ns/Na)+1)))     # scaling parameter \in (0,1)
         lambd[:, 0] = self.scale
